@@ -17,7 +17,7 @@ LEVEL = "model_checking"
 FUNCTIONS = ["strax.processing.peak_building.find_peaks", "strax.utils.growing_result",
              "strax.processing.peak_splitting.symmetric_moving_average", "strax.processing.peak_merging.replace_merged",
              "_replace_merged", "strax.processing.general.touching_windows", "strax.processing.peak_merging.merge_peaks",
-             "_merge_peaks", "gcd_of_array"]
+             "_merge_peaks", "gcd_of_array", "strax.processing.statistics._process_intervals_numba"]
 BOUNDS = {
     "quick": "find_peaks: <=4 hits in <=2 channels, times / lengths / areas, gap threshold, extensions, min_area and "
              "max_duration symbolic on Z; moving average: <=6 samples, wing 1..3; replace_merged: <=4 originals x <=2 "
@@ -32,7 +32,7 @@ ASSUMPTIONS = ["replace_merged: merged intervals are hulls of disjoint groups of
                "find_peaks' own assertion gap_threshold > left+right extension is a precondition"]
 OUTSIDE = ["sum_waveform / store_downsampled_waveform / _build_hit_waveform (waveform summing)", "PeakSplitter and "
            "LocalMinimumSplitter / natural breaks", "index_of_fraction / compute_widths / compute_center_time",
-           "highest_density_region", "add_lone_hits", "IEEE rounding", "merge_peaks waveform buffers with symbolic times"]
+           "highest_density_region beyond its interval kernel (sorting, float fractions)", "add_lone_hits", "IEEE rounding", "merge_peaks waveform buffers with symbolic times"]
 STUBS = ["np constructors -> object arrays", "min/max/int shims"]
 
 
@@ -77,6 +77,69 @@ def nat_sma(params, model):
     return {"ok": ok, "detail": f"a={a.tolist()} wing={w} got={np.round(out, 3).tolist()} want={np.round(want, 3).tolist()}"}
 
 
+# ---------------------------------------------------------------------------- highest-density region: interval kernel
+def _hdr_ind(n, pick):
+    """the samples above a level: positions i with x_i >= level"""
+    return [i for i in range(n) if pick(i)]
+
+
+def _hdr_runs(ind):
+    runs = []
+    for i in ind:
+        if runs and runs[-1][1] == i:
+            runs[-1][1] = i + 1
+        else:
+            runs.append([i, i + 1])
+    return runs
+
+
+def _hdr_call(ind, B):
+    import strax.processing.statistics as ss
+
+    ind_a = np.array(ind, dtype=np.int64)
+    # the caller's own lines (highest_density_region)
+    gaps = np.arange(1, len(ind_a) + 1)
+    diff = ind_a[1:] - ind_a[:-1]
+    gaps = gaps[:-1][diff > 1]
+    pad = 3  # the result buffer is followed by the rows of the next fractions: writes beyond row 0 land there
+    res = np.zeros((pad, 2, B), dtype=np.int32)
+    fi, res = ss._process_intervals_numba(ind_a, gaps, 0, res, 0, B)
+    return fi, res
+
+
+def _hdr_verdict(ind, B, fi, res):
+    runs = _hdr_runs(ind)
+    if (res[1:] != 0).any():
+        return f"hdr:{len(runs)} intervals, buffer {B}: rows of OTHER fractions were overwritten"
+    if len(runs) > B:
+        return None if (res[0] == -1).all() else f"hdr:{len(runs)} intervals do not fit the buffer of {B} but no overflow flag: {res[0].tolist()}"
+    got = [[int(res[0, 0, q]), int(res[0, 1, q])] for q in range(len(runs))]
+    return None if got == runs and fi == 1 else f"hdr:intervals {got} instead of {runs} (buffer {B})"
+
+
+def sym_hdr(n, B):
+    xs = [fresh_int(f"x{i}", 0, 9) for i in range(n)]
+    level = fresh_int("level", 1, 9)
+    ind = _hdr_ind(n, lambda i: bool(xs[i] >= level))
+    if not ind:
+        raise core.PathAbort("no sample above the level")
+    fi, res = _hdr_call(ind, B)
+    v = _hdr_verdict(ind, B, fi, res)
+    prove(v is None, v or "hdr")
+    return len(_hdr_runs(ind))
+
+
+def nat_hdr(params, model):
+    n, B = params["n"], params["B"]
+    lvl = model.get("level", 1) or 1
+    ind = _hdr_ind(n, lambda i: (model.get(f"x{i}", 0) or 0) >= lvl)
+    if not ind:
+        return {"ok": True, "detail": "no sample"}
+    fi, res = _hdr_call(ind, B)
+    v = _hdr_verdict(ind, B, fi, res)
+    return {"ok": v is None, "detail": v or "intervals are the maximal runs / overflow flagged", "label": v}
+
+
 # ---------------------------------------------------------------------------- find_peaks
 def _hits(n, sym, model=None):
     import strax
@@ -119,7 +182,9 @@ def _clusters(hits, gap, le, re, maxdur):
         if not last:
             nh = hits[i + 1]
             far = nh["time"] - end >= gap
-            toolong = (nh["time"] - start + nh["length"] + le + re) > maxdur
+            # duration of the peak if the next hit joined it: from (first hit - left extension) to (its end + right
+            # extension); start already contains the left extension
+            toolong = (nh["time"] + nh["length"] + re - start) > maxdur
             cut = bool(sor(far, toolong))
         if last or cut:
             out.append((cur, start, end, (not last) and bool(far)))
@@ -380,6 +445,11 @@ def sym_twin():
 
 
 MUTANTS = [
+    dict(name="max_duration cut counts the left extension twice (original defect F-C19f)", file="strax/processing/peak_building.py",
+         only="peaks", old="                + next_hit[\"dt\"] * next_hit[\"length\"]\n                + right_extension",
+         new="                + next_hit[\"dt\"] * next_hit[\"length\"]\n                + left_extension\n                + right_extension"),
+    dict(name="hdr overflow guard counts gaps, not intervals (original defect F-C19e)", file="strax/processing/statistics.py",
+         only="hdr", old="    if len(gaps) + 1 > _buffer_size:", new="    if len(gaps) > _buffer_size:"),
     dict(name="original F-C19d: natural breaks splitter ends one sample early", file="strax/processing/peak_splitting.py", only="split",
          old="            yield max_i, 0.0\n            yield len(w), 0.0", new="            yield max_i, 0.0\n            yield len(w) - 1, 0.0"),
     dict(name="merge buffers re-zeroed over the (down-sampled) output length only", file="strax/processing/peak_merging.py", only="merge_seq",
@@ -411,5 +481,9 @@ OBLIGATIONS = [
     Ob("merge_seq", sym_merge_seq, lambda tier: [dict()], nat_merge_seq, setup=_setup, witnesses=1,
        doc="two groups in one merge_peaks call (first down-sampled, second with a hole): the second merged waveform is "
            "the sum of its own constituents only"),
+    Ob("hdr", sym_hdr, lambda tier: [dict(n=n, B=B) for n, B in ((3, 1), (5, 2), (6, 2), (7, 3))], nat_hdr, setup=_setup,
+       witnesses=2, doc="_process_intervals_numba (highest_density_region): the intervals are the maximal runs of "
+                        "samples above a symbolic level, or the overflow flag when they do not fit the buffer; nothing "
+                        "outside the fraction's own row is written"),
     Ob("twin", sym_twin, lambda tier: [dict()], None, setup=_setup, expect_cex=True),
 ]
